@@ -4,7 +4,7 @@
    derivative only: any G with G'(x) = - x^(s-1) exp(-x) on x > 0 (in particular Gupc g0 s, for every constant g0). *)
 From Coq Require Import Reals Lra Psatz Bool.
 From Coquelicot Require Import Coquelicot.
-From RV Require Import Base.RB Base.RSpecial Model.LevyClosedForms Proofs.C09_Generic.
+From RV Require Import Base.RB Base.RSpecial Gen.GenC09Vg Model.LevyClosedForms Proofs.C09_Generic Proofs.C09_Vg.
 Open Scope R_scope.
 
 Lemma Rpower_as_exp x y : Rpower x y = exp (y * ln x).
@@ -370,3 +370,48 @@ Proof.
   - intros x Hx. rewrite Rmin_left, Rmax_right in Hx by assumption. apply cont_neg_density. lra.
 Qed.
 End TailCode.
+
+(* ------------------------------------------------------------------ which branch the executed structure takes
+   (used by the interval case lemmas; E1 = E1c c0, G = Gupc g0) *)
+Section CodeBranches.
+Variables (E1 : R -> R) (G : R -> R -> R) (c u y a b : R).
+Lemma cgmy_mass_pos_code_lt1 : y <> 0 -> y < 1 -> cgmy_mass_pos_code E1 G c u y a b = cgmy_integrate_pos G c u y a b.
+Proof.
+  intros H0 H1. unfold cgmy_mass_pos_code, cgmy_integrate_pos, cgmy_tail_code.
+  rewrite (Reqb_ne y 0) by assumption. replace (Rleb 1 y) with false by (symmetry; apply Rleb_false; lra). reflexivity.
+Qed.
+Lemma cgmy_mass_pos_code_rec : 1 < y -> cgmy_mass_pos_code E1 G c u y a b
+  = c * (exp (- (u * a)) / (y * Rpower a y) - exp (- (u * b)) / (y * Rpower b y)) - u / y * cgmy_integrate_pos G c u (y - 1) a b.
+Proof.
+  intros H1. unfold cgmy_mass_pos_code, cgmy_integrate_pos, cgmy_tail_code.
+  rewrite (Reqb_ne y 0) by lra. replace (Rleb 1 y) with true by (symmetry; apply Rleb_true; lra).
+  rewrite (Reqb_ne (y - 1) 0) by lra. ring.
+Qed.
+Lemma cgmy_x_pos_code_ne1 : y <> 1 -> cgmy_x_pos_code E1 G c u y a b = cgmy_integrate_x_pos G c u y a b.
+Proof. intros H1. unfold cgmy_x_pos_code, cgmy_integrate_x_pos, cgmy_tail_x_code. rewrite (Reqb_ne y 1) by assumption. reflexivity. Qed.
+Lemma cgmy_mass_neg_code_as_pos : cgmy_mass_neg_code E1 G c u y a b = cgmy_mass_pos_code E1 G c u y (- b) (- a).
+Proof. reflexivity. Qed.
+Lemma cgmy_x_neg_code_as_pos : cgmy_x_neg_code E1 G c u y a b = - cgmy_x_pos_code E1 G c u y (- b) (- a).
+Proof. unfold cgmy_x_neg_code, cgmy_x_pos_code. ring. Qed.
+End CodeBranches.
+Lemma cgmy_mass_pos_code_y0 c0 G c u a b : 0 < u -> 0 < a -> 0 < b ->
+  cgmy_mass_pos_code (E1c c0) G c u 0 a b = c * RInt e1f (u * a) (u * b).
+Proof.
+  intros Hu Ha Hb. unfold cgmy_mass_pos_code, cgmy_tail_code. rewrite Reqb_same.
+  rewrite <- (E1c_diff c0 (u * a) (u * b)) by nra. ring.
+Qed.
+Lemma cgmy_mass_pos_code_y1 c0 G c u a b : 0 < u -> 0 < a -> 0 < b ->
+  cgmy_mass_pos_code (E1c c0) G c u 1 a b
+  = c * (exp (- (u * a)) / a - exp (- (u * b)) / b) - c * u * RInt e1f (u * a) (u * b).
+Proof.
+  intros Hu Ha Hb. unfold cgmy_mass_pos_code, cgmy_tail_code.
+  rewrite (Reqb_ne 1 0) by lra. replace (Rleb 1 1) with true by (symmetry; apply Rleb_true; lra).
+  replace (1 - 1) with 0 by ring. rewrite Reqb_same. rewrite !Rpower_1 by assumption.
+  rewrite <- (E1c_diff c0 (u * a) (u * b)) by nra. field. split; lra.
+Qed.
+Lemma cgmy_x_pos_code_y1 c0 G c u a b : 0 < u -> 0 < a -> 0 < b ->
+  cgmy_x_pos_code (E1c c0) G c u 1 a b = c * RInt e1f (u * a) (u * b).
+Proof.
+  intros Hu Ha Hb. unfold cgmy_x_pos_code, cgmy_tail_x_code. rewrite Reqb_same.
+  rewrite <- (E1c_diff c0 (u * a) (u * b)) by nra. ring.
+Qed.
